@@ -16,6 +16,7 @@
                     GChk   load state; open && recvBuf.Len()>0 -> GCb else GClr
                     GCb    OnData begins (the adversary's script says how much it consumes, whether it calls Close)
                     GCbBody consume;  GCbClose c = Close() running inside OnData;  GCbEnd OnData returns -> GMove
+                    GSw    (OnData loop left) load state; closed: GSwP pendingData.clear, GSwR recvBuf.recycle
                     GClr   store callbackInProcess 0
                     GLdCs  load callbackCloseState; waitExit -> GWgDoneClose (wg.Done) -> GClose (close())
                     GLen   len(pendingData.unread) > 0 ?   (a racy plain read in the source)
@@ -54,7 +55,9 @@ Inductive cpc :=
 | CRecv (old : Z) | CNotify | CSend | KRet.
 
 Inductive gpc :=
-| GMove | GChk | GCb | GCbBody (k : nat) (cl : nat) | GCbClose (c : cpc) (more : nat) | GCbEnd | GClr | GLdCs | GLen
+| GMove | GChk | GCb | GCbBody (k : nat) (cl : nat) | GCbClose (c : cpc) (more : nat) | GCbEnd
+| GSw | GSwP | GSwR   (* after the OnData loop: load state; closed: pendingData.clear, recvBuf.recycle *)
+| GClr | GLdCs | GLen
 | GCas | GWgDone | GWgDoneClose | GClose (c : cpc) | GExit.
 
 Inductive epcT := EIdle | EAdd (m : list Z) | EHalf | EHalfN | EChk | EClrP | EClrR | EGetCb | ECas | EWgAdd | ESpawn.
@@ -190,7 +193,10 @@ Definition cstep (s : est) (c : cpc) : est * cpc :=
              else (s, KRet)
   | CLd => if st s =? c_streamClosed then (s, KRet) else (s, CCas (st s))
   | CCas old => if st s =? old
-                then (set_st c_streamClosed s, if cbset s then CWait old else CTbl old)
+                then (set_st c_streamClosed
+                        (* with callbacks: safeCloseNotify BEFORE the Wait (wakes an OnData parked in a read) *)
+                        (if cbset s && ((old =? c_streamOpened) || (old =? v_streamLocalHalfClosed)) then set_cnotify true s else s),
+                      if cbset s then CWait old else CTbl old)
                 else (set_casfail true s, CLd)      (* casToClosed: a lost CAS looks again *)
   | CWait old => if wg s <=? 0 then (s, CTbl old) else (s, CWait old)
   | CTbl old => (set_intable false s, CPend old)
@@ -239,8 +245,11 @@ Definition gstep (i : nat) (s : est) : est :=
     match g with
     | GMove => setg i GChk (move_pending s)
     | GChk => if st s =? c_streamOpened
-              then match recv s with [] => setg i GClr s | _ => setg i GCb s end
-              else setg i GClr s
+              then match recv s with [] => setg i GSw s | _ => setg i GCb s end
+              else setg i GSw s
+    | GSw => if st s =? c_streamClosed then setg i GSwP s else setg i GClr s
+    | GSwP => setg i GSwR (clear_pending s)
+    | GSwR => setg i GClr (set_recv [] s)
     | GCb => let a := hd (length (recv s), O) (script s) in
              setg i (GCbBody (fst a) (snd a)) (set_offers (offers s ++ [recv s]) (set_script (tl (script s)) s))
     | GCbBody k cl => setg i (match cl with O => GCbEnd | S more => GCbClose KStart more end)
@@ -404,7 +413,7 @@ Definition pend_op (s : est) (w : who) : option nat :=
            | _ => None
            end
   | WGor i => match nth_error (gors s) i with
-              | Some GMove => Some (length (pending s))
+              | Some GMove | Some GSwP => Some (length (pending s))
               | Some (GCbClose (CPend _) _) | Some (GClose (CPend _)) => Some (length (pending s))
               | _ => None
               end
